@@ -125,3 +125,247 @@ Proof.
     - rewrite aget_adel_N, E. reflexivity. }
   unfold fut in X. rewrite (X a Hh), (X b ltac:(lia)). apply H2. lia.
 Qed.
+
+(* ---------- reads ---------- *)
+Lemma count_vote_empty : forall k id, r_count_vote r_empty k id = 0.
+Proof. intros k [i|]; destruct k; reflexivity. Qed.
+
+Lemma vc_proposal_cell : forall vc r, vc_proposal vc r = r_prop (cell vc (vc_h vc) r).
+Proof.
+  intros. unfold vc_proposal, cell, row, rm_get. rewrite N.eqb_refl.
+  destruct (aget Z.eqb (vc_rounds vc) r); reflexivity.
+Qed.
+
+Section Reads.
+  Variable c : cfg.
+  Hypothesis Qpos : forall h, 0 < q_of (c_total c h).
+
+  Lemma quorum_vote_cell : forall vc r k id,
+    vc_has_quorum_vote c vc r k id = (vc_quorum c vc <=? r_count_vote (cell vc (vc_h vc) r) k id).
+  Proof.
+    intros. unfold vc_has_quorum_vote, cell, row, rm_get. rewrite N.eqb_refl.
+    destruct (aget Z.eqb (vc_rounds vc) r); [reflexivity|].
+    rewrite count_vote_empty. unfold vc_quorum. specialize (Qpos (vc_h vc)). lia.
+  Qed.
+  Lemma quorum_any_cell : forall vc r k,
+    vc_has_quorum_any c vc r k = (vc_quorum c vc <=? r_count_any (cell vc (vc_h vc) r) k).
+  Proof.
+    intros. unfold vc_has_quorum_any, cell, row, rm_get. rewrite N.eqb_refl.
+    destruct (aget Z.eqb (vc_rounds vc) r); [reflexivity|].
+    assert (Z0 : r_count_any r_empty k = 0) by (destruct k; reflexivity). rewrite Z0.
+    unfold vc_quorum. specialize (Qpos (vc_h vc)). lia.
+  Qed.
+  Lemma nonfaulty_cell : forall vc r,
+    vc_has_nonfaulty_future c vc r = (vc_faulty c vc <? r_count_future (cell vc (vc_h vc) r)).
+  Proof.
+    intros. unfold vc_has_nonfaulty_future, cell, row, rm_get. rewrite N.eqb_refl.
+    destruct (aget Z.eqb (vc_rounds vc) r); [reflexivity|].
+    assert (Z0 : r_count_future r_empty = 0) by reflexivity. rewrite Z0. lia.
+  Qed.
+  Lemma future_quorum_cell : forall vc h r id, vc_h vc <= h ->
+    vc_has_future_precommit_quorum c vc h r id = (vc_quorum c vc <=? r_count_vote (cell vc h r) Precommit (Some id)).
+  Proof.
+    intros vc h r id Hh. unfold vc_has_future_precommit_quorum, cell, row, fut.
+    destruct (h <? vc_h vc) eqn:E; [lia|]. reflexivity.
+  Qed.
+
+  Lemma vc_proposal_eq : forall a b r, vc_eq a b -> vc_proposal a r = vc_proposal b r.
+  Proof. intros a b r [H1 H2]. rewrite !vc_proposal_cell, <- H1, H2 by lia. reflexivity. Qed.
+  Lemma quorum_vote_eq : forall a b r k id, vc_eq a b -> vc_has_quorum_vote c a r k id = vc_has_quorum_vote c b r k id.
+  Proof. intros a b r k id [H1 H2]. rewrite !quorum_vote_cell. unfold vc_quorum. rewrite <- H1, H2 by lia. reflexivity. Qed.
+  Lemma quorum_any_eq : forall a b r k, vc_eq a b -> vc_has_quorum_any c a r k = vc_has_quorum_any c b r k.
+  Proof. intros a b r k [H1 H2]. rewrite !quorum_any_cell. unfold vc_quorum. rewrite <- H1, H2 by lia. reflexivity. Qed.
+  Lemma nonfaulty_eq : forall a b r, vc_eq a b -> vc_has_nonfaulty_future c a r = vc_has_nonfaulty_future c b r.
+  Proof. intros a b r [H1 H2]. rewrite !nonfaulty_cell. unfold vc_faulty. rewrite <- H1, H2 by lia. reflexivity. Qed.
+  Lemma future_quorum_eq : forall a b h r id, vc_eq a b ->
+    vc_has_future_precommit_quorum c a h r id = vc_has_future_precommit_quorum c b h r id.
+  Proof.
+    intros a b h r id [H1 H2]. destruct (N.lt_ge_cases h (vc_h a)) as [L|G].
+    - unfold vc_has_future_precommit_quorum. rewrite <- H1. destruct (h <? vc_h a) eqn:E; [reflexivity|lia].
+    - rewrite !future_quorum_cell by lia. unfold vc_quorum. rewrite <- H1, H2 by lia. reflexivity.
+  Qed.
+End Reads.
+
+(* ---------- states ---------- *)
+Definition scal (s : state) :=
+  (s_h s, s_r s, s_step s, s_lv s, s_lr s, s_vv s, s_vr s, s_tpv s, s_tpc s, s_lvs s, s_started s, s_nval s).
+Definition obs_eq (s s' : state) : Prop := scal s = scal s' /\ vc_eq (s_vc s) (s_vc s').
+Definition repl (s : state) (vc : vcounter) (l q : N) : state :=
+  mkS (s_h s) (s_r s) (s_step s) (s_lv s) (s_lr s) (s_vv s) (s_vr s) (s_tpv s) (s_tpc s) (s_lvs s)
+      (s_started s) vc l q (s_nval s).
+
+Lemma obs_eq_repl : forall s s', obs_eq s s' -> s' = repl s (s_vc s') (s_lts s') (s_lq s').
+Proof. intros s s' [H _]. destruct s'. unfold scal, repl in *. simpl in *. inversion H. reflexivity. Qed.
+Lemma obs_eq_intro : forall s vc l q, vc_eq (s_vc s) vc -> obs_eq s (repl s vc l q).
+Proof. intros. split; [reflexivity|assumption]. Qed.
+Lemma obs_eq_refl : forall s, obs_eq s s.
+Proof. intros. split; [reflexivity|apply vc_eq_refl]. Qed.
+Lemma obs_eq_sym : forall a b, obs_eq a b -> obs_eq b a.
+Proof. intros a b [H1 H2]. split; [auto|apply vc_eq_sym; assumption]. Qed.
+Lemma obs_eq_trans : forall a b c, obs_eq a b -> obs_eq b c -> obs_eq a c.
+Proof. intros a b c [H1 H2] [H3 H4]. split; [congruence|eapply vc_eq_trans; eassumption]. Qed.
+
+(* bring a pair of equivalent states into the form (s, repl s vc' l' q') *)
+Ltac norm_obs H :=
+  match type of H with
+  | obs_eq ?s ?s' =>
+      let Hv := fresh "Hv" in
+      rewrite (obs_eq_repl _ _ H); destruct H as [_ Hv];
+      set (vc' := s_vc s') in *; set (l' := s_lts s') in *; set (q' := s_lq s') in *;
+      clearbody vc' l' q'; clear s'
+  end.
+
+Section Respect.
+  Variable c : cfg.
+  Hypothesis Qpos : forall h, 0 < q_of (c_total c h).
+
+  Lemma send_proposal_obs : forall s s' v, obs_eq s s' ->
+    obs_eq (fst (send_proposal c s v)) (fst (send_proposal c s' v)) /\ snd (send_proposal c s v) = snd (send_proposal c s' v).
+  Proof.
+    intros s s' v H. norm_obs H. unfold send_proposal. simpl. split; [|reflexivity].
+    split; [reflexivity|]. simpl. apply vc_add_proposal_eq. assumption.
+  Qed.
+  Lemma send_prevote_obs : forall s s' id, obs_eq s s' ->
+    obs_eq (fst (send_prevote c s id)) (fst (send_prevote c s' id)) /\ snd (send_prevote c s id) = snd (send_prevote c s' id).
+  Proof.
+    intros s s' v H. norm_obs H. unfold send_prevote. simpl. split; [|reflexivity].
+    split; [reflexivity|]. simpl. apply vc_add_vote_eq. assumption.
+  Qed.
+  Lemma send_precommit_obs : forall s s' id, obs_eq s s' ->
+    obs_eq (fst (send_precommit c s id)) (fst (send_precommit c s' id)) /\ snd (send_precommit c s id) = snd (send_precommit c s' id).
+  Proof.
+    intros s s' v H. norm_obs H. unfold send_precommit. simpl. split; [|reflexivity].
+    split; [reflexivity|]. simpl. apply vc_add_vote_eq. assumption.
+  Qed.
+
+  Lemma start_round_obs : forall s s' r, obs_eq s s' ->
+    obs_eq (fst (start_round c s r)) (fst (start_round c s' r)) /\ snd (start_round c s r) = snd (start_round c s' r).
+  Proof.
+    intros s s' r H. pose proof H as [_ [Hh _]]. norm_obs H. unfold start_round. simpl in *. rewrite <- Hh.
+    destruct (c_proposer c (vc_h (s_vc s)) r =? c_self c).
+    - destruct (s_vv s); apply send_proposal_obs; split; try reflexivity; assumption.
+    - split; [|reflexivity]. split; [reflexivity|assumption].
+  Qed.
+  (* the guards of the rules read the counter only through equivalent queries *)
+  Lemma upon_eqs : forall s s', obs_eq s s' ->
+    (forall p, upon22 s' p = upon22 s p) /\ (forall p, upon28 c s' p = upon28 c s p) /\
+    upon34 c s' = upon34 c s /\ (forall p, upon36 c s' p = upon36 c s p) /\ upon44 c s' = upon44 c s /\
+    upon47 c s' = upon47 c s /\ (forall p, upon49 c s' p = upon49 c s p) /\ (forall r, upon55 c s' r = upon55 c s r) /\
+    (forall r, vc_proposal (s_vc s') r = vc_proposal (s_vc s) r).
+  Proof.
+    intros s s' H. norm_obs H. apply vc_eq_sym in Hv.
+    unfold upon22, upon28, upon34, upon36, upon44, upon47, upon49, upon55. simpl.
+    repeat split; intros;
+      rewrite ?(quorum_vote_eq c Qpos _ _ _ _ _ Hv), ?(quorum_any_eq c Qpos _ _ _ _ Hv),
+              ?(nonfaulty_eq c _ _ _ Hv), ?(vc_proposal_eq _ _ _ Hv); reflexivity.
+  Qed.
+
+  Lemma select_eq : forall s s' rr, obs_eq s s' -> select c s' rr = select c s rr.
+  Proof.
+    intros s s' rr H. destruct (upon_eqs s s' H) as [E22 [E28 [E34 [E36 [E44 [E47 [E49 [E55 EP]]]]]]]].
+    assert (Hr : s_r s' = s_r s) by (destruct H as [H _]; unfold scal in H; inversion H; auto).
+    assert (X : forall o, otest o (upon49 c s') = otest o (upon49 c s)) by (intros [p|]; simpl; auto).
+    assert (Y : forall o, otest o (upon55 c s') = otest o (upon55 c s)) by (intros [p|]; simpl; auto).
+    unfold select. destruct rr as [r0|]; rewrite Hr, !EP, E34, E44, E47, X, Y;
+      (destruct (vc_proposal (s_vc s) (s_r s)) as [p|]; [|reflexivity]); rewrite E22, E28, E36; reflexivity.
+  Qed.
+
+  Lemma scal_fields : forall s s', obs_eq s s' ->
+    s_h s' = s_h s /\ s_r s' = s_r s /\ s_step s' = s_step s /\ s_lr s' = s_lr s /\ s_lv s' = s_lv s /\
+    s_started s' = s_started s /\ s_vv s' = s_vv s /\ s_vr s' = s_vr s.
+  Proof. intros s s' [H _]. unfold scal in H. inversion H. repeat split; auto. Qed.
+
+  Ltac pair_obs L :=
+    let A := fresh "A" in let B := fresh "B" in
+    destruct L as [A B];
+    repeat match goal with |- context [fst ?x] => is_var x; fail 1 | |- _ => idtac end.
+
+  Lemma do22_obs : forall s s' p, obs_eq s s' ->
+    obs_eq (fst (do22 c s p)) (fst (do22 c s' p)) /\ snd (do22 c s p) = snd (do22 c s' p).
+  Proof.
+    intros s s' p H. destruct (scal_fields s s' H) as [_ [_ [_ [Elr [Elv _]]]]].
+    unfold do22, lock_matches. rewrite Elr, Elv. apply send_prevote_obs. exact H.
+  Qed.
+  Lemma do28_obs : forall s s' p, obs_eq s s' ->
+    obs_eq (fst (do28 c s p)) (fst (do28 c s' p)) /\ snd (do28 c s p) = snd (do28 c s' p).
+  Proof.
+    intros s s' p H. destruct (scal_fields s s' H) as [_ [_ [_ [Elr [Elv _]]]]].
+    unfold do28, lock_matches. rewrite Elr, Elv. apply send_prevote_obs. exact H.
+  Qed.
+  Lemma do36_obs : forall s s' p, obs_eq s s' ->
+    obs_eq (fst (do36 c s p)) (fst (do36 c s' p)) /\ snd (do36 c s p) = snd (do36 c s' p).
+  Proof.
+    intros s s' p H. destruct (scal_fields s s' H) as [_ [_ [Est _]]]. unfold do36. rewrite Est. clear Est.
+    destruct (step_eqb (s_step s) SPrevote).
+    - assert (L : obs_eq (set_lock s (p_val p)) (set_lock s' (p_val p))).
+      { norm_obs H. split; [reflexivity|exact Hv]. }
+      destruct (send_precommit_obs _ _ (Some (pid c p)) L) as [A B].
+      destruct (send_precommit c (set_lock s (p_val p)) _) as [s1 a1], (send_precommit c (set_lock s' (p_val p)) _) as [s2 a2].
+      simpl in *. subst. split; [|reflexivity]. destruct A as [A1 A2]. split; [|exact A2].
+      unfold scal in *. inversion A1. unfold set_valid. simpl. congruence.
+    - simpl. split; [|reflexivity]. norm_obs H. split; [reflexivity|exact Hv].
+  Qed.
+
+  Lemma apply_rule_obs : forall s s' ru, obs_eq s s' ->
+    obs_eq (fst (fst (apply_rule c s ru))) (fst (fst (apply_rule c s' ru))) /\
+    snd (fst (apply_rule c s ru)) = snd (fst (apply_rule c s' ru)) /\
+    snd (apply_rule c s ru) = snd (apply_rule c s' ru).
+  Proof.
+    intros s s' ru H. destruct ru; cbn [apply_rule].
+    - destruct (do22_obs s s' p H) as [A B]. destruct (do22 c s p), (do22 c s' p). simpl in *. subst. auto.
+    - destruct (do28_obs s s' p H) as [A B]. destruct (do28 c s p), (do28 c s' p). simpl in *. subst. auto.
+    - norm_obs H. unfold do34. simpl. split; [split; [reflexivity|exact Hv]|split; reflexivity].
+    - destruct (do36_obs s s' p H) as [A B]. destruct (do36 c s p), (do36 c s' p). simpl in *. subst. auto.
+    - destruct (send_precommit_obs s s' None H) as [A B].
+      destruct (send_precommit c s None), (send_precommit c s' None). simpl in *. subst. auto.
+    - norm_obs H. unfold do47. simpl. split; [split; [reflexivity|exact Hv]|split; reflexivity].
+    - norm_obs H. unfold do49. simpl. split; [split; [reflexivity|apply vc_start_new_height_eq; exact Hv]|split; reflexivity].
+    - destruct (start_round_obs s s' r H) as [A B].
+      destruct (start_round c s r), (start_round c s' r). simpl in *. subst. auto.
+    - simpl. auto.
+  Qed.
+
+  Lemma loop_obs : forall fuel s s' rr, obs_eq s s' ->
+    obs_eq (fst (fst (loop c fuel s rr))) (fst (fst (loop c fuel s' rr))) /\
+    snd (fst (loop c fuel s rr)) = snd (fst (loop c fuel s' rr)) /\
+    snd (loop c fuel s rr) = snd (loop c fuel s' rr).
+  Proof.
+    induction fuel as [|n IH]; intros s s' rr H; cbn [loop]; [simpl; auto|].
+    rewrite (select_eq s s' rr H).
+    destruct (apply_rule_obs s s' (select c s rr) H) as [A [B C]].
+    destruct (apply_rule c s (select c s rr)) as [[s1 oa] cont], (apply_rule c s' (select c s rr)) as [[s1' oa'] cont'].
+    simpl in A, B, C. subst oa' cont'. destruct cont; [|simpl; auto].
+    destruct (IH s1 s1' rr A) as [A2 [B2 C2]].
+    destruct (loop c n s1 rr) as [[s2 more] ex], (loop c n s1' rr) as [[s2' more'] ex']. simpl in *. subst. auto.
+  Qed.
+
+  Lemma on_timeout_obs : forall s s' k h r, obs_eq s s' ->
+    obs_eq (fst (on_timeout c s k h r)) (fst (on_timeout c s' k h r)) /\
+    snd (on_timeout c s k h r) = snd (on_timeout c s' k h r).
+  Proof.
+    intros s s' k h r H. destruct (scal_fields s s' H) as [Eh [Er [Est _]]].
+    unfold on_timeout. rewrite Eh, Er, Est. clear Eh Er Est. destruct k.
+    - destruct ((s_h s =? h) && (s_r s =? r)%Z && step_eqb (s_step s) SPropose); [|simpl; auto].
+      destruct (send_prevote_obs s s' None H) as [A B].
+      destruct (send_prevote c s None), (send_prevote c s' None). simpl in *. subst. auto.
+    - destruct ((s_h s =? h) && (s_r s =? r)%Z && step_eqb (s_step s) SPrevote); [|simpl; auto].
+      destruct (send_precommit_obs s s' None H) as [A B].
+      destruct (send_precommit c s None), (send_precommit c s' None). simpl in *. subst. auto.
+    - destruct ((s_h s =? h) && (s_r s =? r)%Z); [|simpl; auto].
+      destruct (start_round_obs s s' (r + 1)%Z H) as [A B].
+      destruct (start_round c s (r + 1)%Z), (start_round c s' (r + 1)%Z). simpl in *. subst. auto.
+  Qed.
+
+  Lemma process_message_obs : forall s s' w h r, obs_eq s s' ->
+    obs_eq (fst (fst (process_message c s w h r))) (fst (fst (process_message c s' w h r))) /\
+    snd (fst (process_message c s w h r)) = snd (fst (process_message c s' w h r)).
+  Proof.
+    intros s s' w h r H. destruct (scal_fields s s' H) as [Eh _]. unfold process_message. rewrite Eh.
+    destruct (negb (h =? s_h s)); [simpl; auto|].
+    destruct (loop_obs FUEL s s' (Some r) H) as [A [B _]].
+    destruct (loop c FUEL s (Some r)) as [[s1 a1] e1], (loop c FUEL s' (Some r)) as [[s2 a2] e2]. simpl in *. subst. auto.
+  Qed.
+
+  Lemma set_vc_obs : forall s s' a b, obs_eq s s' -> vc_eq a b -> obs_eq (set_vc s a) (set_vc s' b).
+  Proof. intros s s' a b H Hab. norm_obs H. split; [reflexivity|exact Hab]. Qed.
+End Respect.
